@@ -104,3 +104,23 @@ def make_text(rng, names, max_words=8, multiline=None, final_newline=None):
     if final_newline and multiline:
         text += "\n"
     return text
+
+
+# texts of (about) n characters that a pattern matches *as a whole* (is_exact_match is True): long exact witnesses are
+# what block-wise or prefix-based shortcuts get wrong
+EXACT = {
+    "word": lambda n: "a" * n,
+    "digits": lambda n: "7" * n,
+    "neg_cls": lambda n: "b" * n,
+    "greek": lambda n: "\u03b1" * n,
+    "lazy": lambda n: "<" + "x" * max(1, n - 2) + ">",
+    "linestart": lambda n: "x" * n,
+    "lineend": lambda n: "q" * n,
+    "strstart": lambda n: "a_1" * max(1, n // 3),
+    "strend": lambda n: "z9" * max(1, n // 2),
+    "raw_ws": lambda n: " " * n,
+    "anyspan": lambda n: "a\nb",
+    "kv": lambda n: "k" * max(1, n - 3) + "=12",
+    "raw_named": lambda n: "2024-05",
+    "either": lambda n: "9" * n,
+}
